@@ -1,5 +1,5 @@
 from ..driver import Prop, Suite, Case
-from .. import ringgen, unigen, poolgen, core
+from .. import ringgen, unigen, poolgen, lifegen, core
 
 W = 1 << 32
 
@@ -15,7 +15,7 @@ class C15(Prop):
     rule = ("every generated case is run twice on the implementation - sequence counters starting at 0 and starting at an origin drawn from a window around 2^32 / 2^31 "
             "(via the verif sequence_origin hook) - and the two runs must give the same accept/reject results, delivered values, order and reported lengths; the run at the "
             "origin is also compared in lock-step with the u32 model started at that origin. Suites: AtomicMove, FullSyncMove, pool allocator (both free lists), movable atomic / "
-            "full-sync Uni channels. non-trivial = the counters cross the 2^32 (or 2^31) boundary during the case")
+            "full-sync Uni channels; plus payload life-cycle histories (destructor-counting payload, teardown with leftovers) on nine channel kinds whose counters start just below 2^32. non-trivial = the counters cross the 2^32 (or 2^31) boundary during the case")
     trusted_base = ["the sequence_origin hook builds the rings with all counters = origin (add-only, cfg verif); a ring that really transported origin events is in the same state up to buffer contents that are never read",
                     "overflow-checked builds: the harness is built with the default dev profile (overflow checks ON) - a panic in any operation shows as a panic record"]
     assumptions = ["N divides 2^32 (BUFFER_SIZE is a power of two, enforced by the code)", "at most T threads are inside an operation at once with N + T <= 2^31"]
@@ -49,9 +49,16 @@ class C15(Prop):
             ua += twin(c0, o, lambda c, o: unigen.mk_case("move_atomic", c.meta["N"], c.meta["M"], c.meta["k"], o, c.meta["progs"], c.meta["sched"]))
             c0 = unigen.gen_case(rng, "move_full_sync"); o = origins(rng, c0.meta["N"], 1)[0]
             uf += twin(c0, o, lambda c, o: unigen.mk_case("move_full_sync", c.meta["N"], c.meta["M"], c.meta["k"], o, c.meta["progs"], c.meta["sched"]))
-        return [Suite("ring", ringgen.HEADER, ring), Suite("fsring", ringgen.HEADER, fs), Suite("pool_atomic", poolgen.HEADER, pa),
+        # a channel that has transported almost 2^32 events carries droppable payloads across the wrap and is torn down with leftovers:
+        # the life-cycle model (Alloc/Lifecycle.v, origin-independent) in lock-step + the ownership oracle of C05
+        life = []
+        for kind in lifegen.KINDS:
+            for _ in range(max(6, n // 8)): life.append(lifegen.gen_history(rng, kind, origin=W - rng.randint(0, 5)))
+        return [Suite("life_cycle_across_the_wrap", lifegen.HEADER, life), Suite("ring", ringgen.HEADER, ring), Suite("fsring", ringgen.HEADER, fs), Suite("pool_atomic", poolgen.HEADER, pa),
                 Suite("pool_fullsync", poolgen.HEADER, pf), Suite("uni_move_atomic", unigen.HEADER, ua), Suite("uni_move_full_sync", unigen.HEADER, uf)]
     def oracle(self, case, recs):
+        if case.meta.get("profile") == "life":
+            return [(cls, text + " (sequence counters started at %d)" % case.meta["origin"]) for cls, text in lifegen.oracle(case, recs)]
         hits = []
         for r in recs:
             if r[0] == "panic": hits.append((None, "panic (kind %d: 1 = arithmetic overflow) in thread %d at origin %d" % (r[2], r[1], case.meta.get("origin", 0))))
@@ -64,6 +71,7 @@ class C15(Prop):
                 hits.append((None, "origin %d answers differently from origin 0 at response #%d: %s vs %s" % (case.meta["origin"], k, b[k] if k < len(b) else None, a[k] if k < len(a) else None)))
         return hits
     def nontrivial(self, case, recs):
+        if case.meta.get("profile") == "life": return lifegen.nontrivial(case, recs)
         o = case.meta.get("origin", 0)
         if o == 0: return False
         vals = [r[4] for r in recs if r[0] == "acc" and r[3] in (0, 2, 3) and r[2] < 5]
@@ -73,6 +81,7 @@ class C15(Prop):
         cases = []
         for l in lines:
             if l.startswith("uni "): cases.append(unigen.parse_case_line(l))
+            elif l.startswith("life "): cases.append(lifegen.parse_case_line(l))
             elif l.startswith("pool "): cases.append(poolgen.parse_case_line(l))
             else: cases.append(ringgen.parse_case_line(l))
-        return Suite("replay", unigen.HEADER + "\n" + ringgen.HEADER + "\n" + poolgen.HEADER, cases)
+        return Suite("replay", unigen.HEADER + "\n" + ringgen.HEADER + "\n" + poolgen.HEADER + "\n" + lifegen.HEADER, cases)
